@@ -88,3 +88,38 @@ package session
 //@     invariant forall j sharing.ID :: shk(ctx.seeds[j]) == old(shk(ctx.seeds[j]))
 //@   assert before "subPairwiseSeeds[id] = newSeed": has(ctx.seeds, id) ==> shk(newSeed) == advance(absorb(absorb(cshakeInit(bytes(), strbytes(subContextDomainSeparatorLabel)), squeeze(shk(ctx.seeds[id]), 32)), subQuorumData.Bytes()), 32)
 //@   assert before "subPairwiseSeeds[id] = newSeed": forall t int :: 0 <= t && t < $i && subQuorumSorted[t] != ctx.holderID && has(ctx.seeds, subQuorumSorted[t]) ==> subPairwiseSeeds[subQuorumSorted[t]] != newSeed && shk(subPairwiseSeeds[subQuorumSorted[t]]) == advance(absorb(absorb(cshakeInit(bytes(), strbytes(subContextDomainSeparatorLabel)), squeeze(shk(ctx.seeds[subQuorumSorted[t]]), 32)), subQuorumData.Bytes()), 32)
+
+// ---------------------------------------------------------------- randomness provenance (C07)
+// Round 1: the commitment key, the common contribution and the witness of its commitment are all drawn from THIS
+// participant's reader during this call (streamOf / rpos / drawn: /verif/specs/reader.spec), and what is broadcast is
+// the sampled key and the commitment to the sampled contribution under the sampled witness.
+//@ func (*Participant).Round1
+//@   property C07
+//@   uses reader
+//@   ensures err == nil ==> ownDraw(box(p.commitmentKeys[p.id]), old(shk(p.prng)), shk(p.prng)) && result.Ck == p.commitmentKeys[p.id]
+//@   ensures err == nil ==> ownBytes(p.commonContributions[p.id][:], old(shk(p.prng)), shk(p.prng))
+//@   ensures err == nil ==> ownDraw(box(p.commonContributionWitnesses[p.id]), old(shk(p.prng)), shk(p.prng))
+//@   ensures err == nil ==> result.CommonCommitment == p.commonContributionCommitments[p.id]
+//@   ensures streamOf(shk(p.prng)) == streamOf(old(shk(p.prng))) && p.prng == old(p.prng)
+
+// Round 2: for EVERY other party a separate 32-byte pairwise contribution is drawn from this participant's reader, at
+// pairwise disjoint positions of its stream (so no two peers get the same draw), and committed under a witness drawn
+// from the same reader. dst[a] is the reader state from which the a-th peer's contribution was read (ghost).
+//@ func (*Participant).Round2
+//@   property C07
+//@   uses reader
+//@   ghostvar dst map[int]V
+// (representation invariant established by NewParticipant: the quorum is a set, so the ordered peers are distinct)
+//@   requires forall a, b Int :: 0 <= a && a < b && b < seqlen(p.otherParticipantsOrdered()) ==> sessOth(p, a) != sessOth(p, b)
+//@   ensures err == nil ==> forall a Int :: 0 <= a && a < seqlen(p.otherParticipantsOrdered()) ==> bytesEq(p.pairwiseContributions[sessOth(p, a)][:], squeeze(dst[a], 32)) && streamOf(dst[a]) == streamOf(old(shk(p.prng))) && rpos(old(shk(p.prng))) <= rpos(dst[a]) && rpos(dst[a]) + 32 <= rpos(shk(p.prng))
+//@   ensures err == nil ==> forall a, b Int :: 0 <= a && a < b && b < seqlen(p.otherParticipantsOrdered()) ==> rpos(dst[a]) + 32 <= rpos(dst[b])
+//@   ensures err == nil ==> forall a Int :: 0 <= a && a < seqlen(p.otherParticipantsOrdered()) ==> ownDraw(box(p.pairwiseContributionWitnesses[sessOth(p, a)]), old(shk(p.prng)), shk(p.prng))
+//@   ensures p.prng == old(p.prng)
+//@   loop range(p.otherParticipantsOrdered())
+//@     invariant p.prng == old(p.prng) && shk(p.prng) == old(shk(p.prng))
+//@   loop range(p.otherParticipantsOrdered())#2
+//@     invariant p.prng == old(p.prng) && streamOf(shk(p.prng)) == streamOf(old(shk(p.prng))) && rpos(old(shk(p.prng))) <= rpos(shk(p.prng))
+//@     invariant forall a Int :: 0 <= a && a < $i ==> bytesEq(p.pairwiseContributions[sessOth(p, a)][:], squeeze(dst[a], 32)) && streamOf(dst[a]) == streamOf(old(shk(p.prng))) && rpos(old(shk(p.prng))) <= rpos(dst[a]) && rpos(dst[a]) + 32 <= rpos(shk(p.prng))
+//@     invariant forall a, b Int :: 0 <= a && a < b && b < $i ==> rpos(dst[a]) + 32 <= rpos(dst[b])
+//@     invariant forall a Int :: 0 <= a && a < $i ==> ownDraw(box(p.pairwiseContributionWitnesses[sessOth(p, a)]), old(shk(p.prng)), shk(p.prng))
+//@   ghostset before "var pairwiseContribution [base.CollisionResistanceBytesCeil]byte": dst[$i] = shk(p.prng)
